@@ -125,7 +125,7 @@ package reedsolomon
 //@ func (this *GenericGF) Exp(a int) (r int)
 //@   property C04
 //@   requires wfGF(this) && 0 <= a && a < this.size
-//@   ensures r == this.expTable[a]
+//@   ensures r == this.expTable[a] && 1 <= r && r < this.size
 //@   modifies nothing
 
 //@ func (this *GenericGF) Log(a int) (r int, e error)
